@@ -558,6 +558,41 @@ def sched_exploration(run, harness, label, args, tags, lin=True):
     return ok
 
 
+def trace_correspondence(run, harness, label, args):
+    """M4a <-> real code at atomic-step granularity: the protocol-level trace of every explored schedule of the
+    real Map/MapOf must be a run of the Lean model `Model.Proto` (commit points, thresholds, counters, lock and
+    resize protocol, call results).  A mismatch is a broken correspondence (not by itself a failing input)."""
+    d = os.path.join(run.work, label)
+    os.makedirs(d, exist_ok=True)
+    rc, o, e = sh([harness, "sched", "out=" + d, "trace=1"] + args, timeout=3000)
+    if rc != 0:
+        run.oblige("trace correspondence %s: harness ran" % label, False, e[-2000:])
+        return False
+    with open(os.path.join(d, "trace.txt"), "rb") as fin:
+        p = subprocess.run([DRIVER, "--trace-proto"], stdin=fin, stdout=subprocess.PIPE, stderr=subprocess.PIPE, timeout=3000)
+    lines = p.stdout.decode().splitlines()
+    bad = [l for l in lines if " MISMATCH " in l]
+    n_events = sum(int(l.split()[2]) for l in lines if " OK " in l and len(l.split()) > 2)
+    run.cov["traces_validated_against_impl"] += len(lines)
+    run.cov["evaluations"] += len(lines)
+    run.cov["transitions_scheduled"] = run.cov.get("transitions_scheduled", 0) + n_events
+    run.cov["runs"].append({"label": label, "traces": len(lines), "trace_events_accepted_by_model": n_events, "mismatches": len(bad)})
+    detail = ""
+    if bad:
+        # keep the first mismatching trace as the replay of the broken correspondence
+        tid = bad[0].split()[0]
+        tr, keep = [], False
+        for l in read_lines(os.path.join(d, "trace.txt")):
+            if l.startswith("trace "):
+                keep = l.split()[1] == tid
+            if keep:
+                tr.append(l)
+        path = write_replay(run, label + "_trace", {"kind": "trace-correspondence", "what": "the Lean protocol model (M4a) cannot follow this trace of the real code", "mismatch": bad[0], "trace": tr, "harness_args": args})
+        detail = "%d of %d traces rejected by the model; first: %s (trace in %s)" % (len(bad), len(lines), bad[0], path)
+    run.oblige("trace correspondence %s: every protocol-level trace of the real code is a run of Model.Proto (%d traces)" % (label, len(lines)), not bad, detail)
+    return not bad
+
+
 # --------------------------------------------------------------------------------------------------
 # known findings, evidence, reporting
 
